@@ -120,6 +120,11 @@ theorem aligned_reset (r : RtlSt) : OregAligned (resetEdge r) := by
   rw [h]
   rfl
 
+/-- Reset leaves the memory image alone. -/
+theorem reset_mem (r : RtlSt) : (resetEdge r).mem = r.mem := by
+  rw [reset_memory]
+  exact mem_reset _ _ rfl
+
 /-! ### System calls -/
 
 theorem sysValid_iff (r : RtlSt) : sysValid r = 1#1 ↔ fetchByte r = 0xD3#8 := by
